@@ -204,13 +204,77 @@ def counter_defs(body, counter):
 
 
 def stores_to(body, array_local):
-    """[(bb, idx, index local root, rvalue)] for statements `array[i] = ...`"""
+    """[(bb, idx, index local root, rvalue, index local)] for statements `array[i] = ...`"""
     out = []
     for bb, i, st in body.assigns():
         pl = st["place"]
         if pl["l"] == array_local and len(pl["p"]) == 1 and pl["p"][0]["k"] == "index":
-            out.append((bb, i, single_use_source(body, pl["p"][0]["l"]), st["rv"]))
+            out.append((bb, i, single_use_source(body, pl["p"][0]["l"]), st["rv"], pl["p"][0]["l"]))
     return out
+
+
+def _pos(idx):
+    return 10 ** 9 if idx == "term" else idx
+
+
+def read_point(body, l, counter, at):
+    """where the value used as index was read from `counter`: the statement `_t = copy counter` at the end of the
+    copy chain of the index local, or the store itself (`at`) when the counter is the index local"""
+    seen = set()
+    while l not in seen:
+        seen.add(l)
+        if l == counter:
+            return at
+        defs = body.defs_of(l)
+        if len(defs) != 1 or defs[0][1] == "term":
+            return None
+        bb, idx, rv = defs[0]
+        if rv["k"] == "use" and rv["op"]["k"] in ("copy", "move") and not rv["op"]["place"]["p"]:
+            at = (bb, idx)
+            l = rv["op"]["place"]["l"]
+            continue
+        return None
+    return None
+
+
+def _before(dom, a, b):
+    """program point a = (bb, idx) precedes b on every path to b"""
+    if a[0] == b[0]:
+        return _pos(a[1]) < _pos(b[1])
+    return a[0] in dom[b[0]]
+
+
+def store_covers(body, succ, dom, reach, site_bb, incs, P, sigma, inc):
+    """the store `sigma`, whose index is the counter's value read at P, writes the slot that the increment `inc` passes:
+    P precedes inc with no other increment in between, and every way from P through inc to the end of the iteration
+    (back edge of the innermost enclosing loop, leaving that loop, or the assume_init site) executes sigma"""
+    if not _before(dom, P, inc):
+        return False
+    for d2 in incs:
+        if d2 != inc and _before(dom, P, d2) and _before(dom, d2, inc):
+            return False
+    if _before(dom, sigma, inc) and (_before(dom, P, sigma) or P == sigma):
+        return True
+    if sigma[0] == inc[0]:
+        return _pos(sigma[1]) > _pos(inc[1])
+    loops = [blk for h, blk in body.loops().items() if inc[0] in blk]
+    loop = min(loops, key=len) if loops else None
+    header = None
+    if loop is not None:
+        header = [h for h, blk in body.loops().items() if blk is loop][0]
+    seen = set()
+    st = [x for x in succ(inc[0])]
+    while st:
+        b = st.pop()
+        if b in seen or b not in reach:
+            continue
+        seen.add(b)
+        if b == sigma[0]:
+            continue                      # this way executes the store
+        if b == site_bb or (loop is not None and b == header):
+            return False                  # the next iteration starts, or the array is assumed initialised, without the store
+        st.extend(succ(b))                # (a path that panics or returns never reaches the site)
+    return True
 
 
 def is_maybeuninit_new(body, rv):
@@ -257,18 +321,19 @@ def init_rule(body, site_bb, site_term):
                 continue
             n_inc += 1
             kconst = k["k"] == "const" and k.get("bits") == "1"
-            cover = [s for s in stores if s[2] == counter and is_maybeuninit_new(body, s[3]) and s[0] in reach and (
-                (s[0] in dom[bb] and s[0] != bb) or (s[0] == bb and (idx == "term" or s[1] < idx)))]
             if kconst:
+                incs = [(d2[1], d2[2]) for d2 in counter_defs(body, counter) if d2[0] == "inc" and d2[1] in reach]
+                cover = False
+                for s in stores:
+                    if s[2] != counter or not is_maybeuninit_new(body, s[3]) or s[0] not in reach:
+                        continue
+                    P = read_point(body, s[4], counter, (s[0], s[1]))
+                    if P is not None and store_covers(body, succ, dom, reach, site_bb, incs, P, (s[0], s[1]), (bb, idx)):
+                        cover = True
                 if not cover:
-                    problems.append("`%s += 1` at bb%d is not dominated by a store `%s[%s] = MaybeUninit::new(..)`" % (
-                        info["counter"], bb, info["array"], info["counter"]))
-                else:
-                    # no other increment between the store and this increment
-                    s = cover[-1]
-                    for d2 in counter_defs(body, counter):
-                        if d2[0] == "inc" and d2[1] != bb and d2[1] in reach and s[0] in dom[d2[1]] and d2[1] in dom[bb]:
-                            problems.append("another increment of the counter lies between the store and `+= 1` at bb%d" % bb)
+                    problems.append("`%s += 1` at bb%d: some path of the iteration passes this increment without executing a store "
+                                    "`%s[%s] = MaybeUninit::new(..)` for the value `%s` had before it (an unwritten slot would be counted)" % (
+                                        info["counter"], bb, info["array"], info["counter"], info["counter"]))
             else:
                 info["variable_step"] = True
                 if not _copy_loop_covers(body, arr, counter, bb, dom, reach):
